@@ -25,7 +25,7 @@ import (
 //     behind the prologue stays concrete; on the accept branch the leading dimensions are case split
 //     (verifConcrete) and well conditioned matrices are laid out.
 
-const verifC07lCap = 16 // cells per operand backing
+const verifC07lCap = 20 // cells per operand backing
 
 func verifC07lMax(a, b int) int { return verifIteInt(a > b, a, b) }
 func verifC07lMin(a, b int) int { return verifIteInt(a < b, a, b) }
@@ -60,6 +60,7 @@ type verifC07lT struct {
 	is, is0 [][]int
 	ldp     []*int
 	mats    []verifC07lMat
+	fill    func() // optional routine-specific layout, run after the default one
 }
 
 func verifC07lBegin(name string) *verifC07lT {
@@ -164,13 +165,38 @@ func (t *verifC07lT) ld(name string, min int) *int {
 }
 
 func (t *verifC07lT) slice(name string) (backing, view []float64) {
+	backing, view = t.scratchSlice(name)
+	t.fs = append(t.fs, backing)
+	return backing, view
+}
+
+// scratchSlice: like slice, but not an operand: work arrays are documented as temporary storage
+// without defined content, so they are not part of the "nothing written before a panic" obligation
+// (Dgels, for one, stores the optimal size in work[0] before it checks len(a) and len(b)).
+func (t *verifC07lT) scratchSlice(name string) (backing, view []float64) {
 	backing = make([]float64, verifC07lCap)
 	for i := range backing {
 		backing[i] = 0.3 + 0.01*float64(i)
 	}
 	view = verifSetLen(backing, verifInt("len_"+name, 0, verifC07lCap))
-	t.fs = append(t.fs, backing)
 	return backing, view
+}
+
+// scratch: a work array that must hold at least need cells.
+func (t *verifC07lT) scratch(name string, need int) []float64 {
+	_, v := t.scratchSlice(name)
+	t.store = verifAnd(t.store, len(v) >= need)
+	t.short = verifOr(t.short, len(v) < need)
+	return v
+}
+
+// iscratch: an integer work array that must hold at least need cells.
+func (t *verifC07lT) iscratch(name string, need int) []int {
+	backing := make([]int, verifC07lCap)
+	v := verifSetLen(backing, verifInt("len_"+name, 0, verifC07lCap))
+	t.store = verifAnd(t.store, len(v) >= need)
+	t.short = verifOr(t.short, len(v) < need)
+	return v
 }
 
 // mat: a rows x cols matrix operand with stride *ld.
@@ -180,6 +206,13 @@ func (t *verifC07lT) mat(name string, rows, cols int, ld *int) []float64 {
 	t.store = verifAnd(t.store, ok)
 	t.short = verifOr(t.short, verifAnd(verifAnd(rows > 0, cols > 0), verifNot(ok)))
 	t.mats = append(t.mats, verifC07lMat{b: b, rows: rows, cols: cols, ld: ld})
+	return v
+}
+
+// matScratch: a work matrix (laid out like mat, but not an operand).
+func (t *verifC07lT) matScratch(name string, rows, cols int, ld *int) []float64 {
+	v := t.mat(name, rows, cols, ld)
+	t.fs = t.fs[:len(t.fs)-1]
 	return v
 }
 
@@ -255,7 +288,7 @@ func (t *verifC07lT) work2(minLo, minHi, hi int) ([]float64, *int) {
 		hi = 1
 	}
 	lwork := verifInt("lwork", -1, hi+2)
-	_, v := t.slice("work")
+	_, v := t.scratchSlice("work")
 	t.query = lwork == -1
 	t.flags = verifAnd(t.flags, verifOr(lwork == -1, lwork >= lo1))
 	t.gap = verifOr(t.gap, verifAnd(lwork != -1, lwork < hi1))
@@ -275,14 +308,18 @@ func (t *verifC07lT) run(call func()) {
 	accept := verifAnd(verifAnd(t.flags, verifNot(t.gap)), verifAnd(t.lds, t.store))
 	reject := verifOr(verifNot(t.flags),
 		verifAnd(verifNot(t.query), verifOr(verifNot(t.lds), verifOr(t.always, verifAnd(t.nonemp, t.short)))))
-	if accept {
+	if !reject {
+		// accept class or undocumented: the call may run the numeric part; case split what steers it
 		for _, p := range t.ldp {
 			*p = verifConcrete(*p)
 		}
 		for _, m := range t.mats {
 			verifC07lFill(m)
 		}
-		verifReach("accept")
+		if t.fill != nil {
+			t.fill()
+		}
+		verifReach("not rejected")
 	}
 	for _, s := range t.fs {
 		t.fs0 = append(t.fs0, append([]float64(nil), s...))
@@ -596,7 +633,7 @@ func VerifC07_Dlange() {
 	m, n := t.dim("m"), t.dim("n")
 	lda := t.ld("lda", verifC07lMax(1, n))
 	a := t.mat("a", m, n, lda)
-	work := t.vec("work", verifIteInt(nm == lapack.MaxColumnSum, n, 0))
+	work := t.scratch("work", verifIteInt(nm == lapack.MaxColumnSum, n, 0))
 	t.run(func() { verifC07lImpl.Dlange(nm, m, n, a, *lda, work) })
 }
 
@@ -607,7 +644,7 @@ func VerifC07_Dlansy() {
 	n := t.dim("n")
 	lda := t.ld("lda", verifC07lMax(1, n))
 	a := t.mat("a", n, n, lda)
-	work := t.vec("work", verifIteInt(verifOr(nm == lapack.MaxColumnSum, nm == lapack.MaxRowSum), n, 0))
+	work := t.scratch("work", verifIteInt(verifOr(nm == lapack.MaxColumnSum, nm == lapack.MaxRowSum), n, 0))
 	t.run(func() { verifC07lImpl.Dlansy(nm, ul, n, a, *lda, work) })
 }
 
@@ -618,7 +655,7 @@ func VerifC07_Dlantr() {
 	m, n := t.dim("m"), t.dim("n")
 	lda := t.ld("lda", verifC07lMax(1, n))
 	a := t.mat("a", m, n, lda)
-	work := t.vec("work", verifIteInt(nm == lapack.MaxColumnSum, n, 0))
+	work := t.scratch("work", verifIteInt(nm == lapack.MaxColumnSum, n, 0))
 	t.run(func() { verifC07lImpl.Dlantr(nm, ul, d, m, n, a, *lda, work) })
 }
 
@@ -639,7 +676,7 @@ func VerifC07_Dlansb() {
 	t.need(kd >= 0)
 	ldab := t.ld("ldab", kd+1)
 	ab := t.band("ab", ul == blas.Upper, n, kd, ldab)
-	work := t.vec("work", verifIteInt(verifOr(nm == lapack.MaxColumnSum, nm == lapack.MaxRowSum), n, 0))
+	work := t.scratch("work", verifIteInt(verifOr(nm == lapack.MaxColumnSum, nm == lapack.MaxRowSum), n, 0))
 	t.run(func() { verifC07lImpl.Dlansb(nm, ul, n, kd, ab, *ldab, work) })
 }
 
@@ -660,7 +697,7 @@ func verifC07lLantb(diagGap bool) {
 	t.need(k >= 0)
 	lda := t.ld("lda", k+1)
 	a := t.band("a", ul == blas.Upper, n, k, lda)
-	work := t.vec("work", verifIteInt(nm == lapack.MaxColumnSum, n, 0))
+	work := t.scratch("work", verifIteInt(nm == lapack.MaxColumnSum, n, 0))
 	t.run(func() { verifC07lImpl.Dlantb(nm, ul, d, n, k, a, *lda, work) })
 }
 
@@ -686,7 +723,7 @@ func VerifC07_Dlarf() {
 	lenV := verifIteInt(sd == blas.Left, m, n)
 	v := t.vec("v", 1+(lenV-1)*verifC07lAbs(*incv))
 	c := t.mat("c", m, n, ldc)
-	_, work := t.slice("work")
+	_, work := t.scratchSlice("work")
 	t.store = verifAnd(t.store, len(work) >= verifC07lMax(m, n))
 	t.short = verifOr(t.short, len(work) < verifIteInt(sd == blas.Left, n, m))
 	t.run(func() { verifC07lImpl.Dlarf(sd, m, n, v, *incv, 0.75, c, *ldc, work) })
@@ -761,7 +798,7 @@ func verifC07lLarfb(k0 bool) {
 	v := t.mat("v", verifIteInt(col, nv, k), verifIteInt(col, k, nv), ldv)
 	tt := t.mat("t", k, k, ldt)
 	c := t.mat("c", m, n, ldc)
-	work := t.mat("work", nw, k, ldw)
+	work := t.matScratch("work", nw, k, ldw)
 	t.run(func() { verifC07lImpl.Dlarfb(sd, tr, dr, st, m, n, k, v, *ldv, tt, *ldt, c, *ldc, work, *ldw) })
 }
 
@@ -783,7 +820,7 @@ func VerifC07_Dorg2r() {
 	lda := t.ld("lda", verifC07lMax(1, n))
 	a := t.mat("a", m, n, lda)
 	tau := t.vecExact("tau", k, true)
-	work := t.vec("work", n)
+	work := t.scratch("work", n)
 	t.run(func() { verifC07lImpl.Dorg2r(m, n, k, a, *lda, tau, work) })
 }
 
@@ -810,7 +847,7 @@ func VerifC07_Dorgl2() {
 	lda := t.ld("lda", verifC07lMax(1, n))
 	a := t.mat("a", m, n, lda)
 	tau := t.vec("tau", k)
-	work := t.vec("work", m)
+	work := t.scratch("work", m)
 	t.run(func() { verifC07lImpl.Dorgl2(m, n, k, a, *lda, tau, work) })
 }
 
@@ -879,7 +916,7 @@ func verifC07lOrm2(name string, qr, tauExact, ldcOK bool) *verifC07lOrmArgs {
 // Dorm2r: "tau ... must have length k and this function will panic otherwise".
 func VerifC07_Dorm2r() {
 	g := verifC07lOrm("Dorm2r", true, true)
-	work := g.t.vec("work", g.nw)
+	work := g.t.scratch("work", g.nw)
 	g.t.run(func() { verifC07lImpl.Dorm2r(g.side, g.trans, g.m, g.n, g.k, g.a, *g.lda, g.tau, g.c, *g.ldc, work) })
 }
 
@@ -897,7 +934,7 @@ func VerifC07_Dormqr() {
 // have no ldc check. The ...LdcOK variants assume ldc >= max(1,n) and are in the spec.
 func verifC07lOrml2(ldcOK bool) {
 	g := verifC07lOrm2("Dorml2", false, false, ldcOK)
-	work := g.t.vec("work", g.nw)
+	work := g.t.scratch("work", g.nw)
 	g.t.run(func() { verifC07lImpl.Dorml2(g.side, g.trans, g.m, g.n, g.k, g.a, *g.lda, g.tau, g.c, *g.ldc, work) })
 }
 
@@ -927,7 +964,7 @@ func VerifC07_Dgeqr2() {
 	lda := t.ld("lda", verifC07lMax(1, n))
 	a := t.mat("a", m, n, lda)
 	tau := t.vecExact("tau", verifC07lMin(m, n), true)
-	work := t.vec("work", n)
+	work := t.scratch("work", n)
 	t.run(func() { verifC07lImpl.Dgeqr2(m, n, a, *lda, tau, work) })
 }
 
@@ -949,7 +986,7 @@ func VerifC07_Dgelq2() {
 	lda := t.ld("lda", verifC07lMax(1, n))
 	a := t.mat("a", m, n, lda)
 	tau := t.vec("tau", verifC07lMin(m, n))
-	work := t.vec("work", m)
+	work := t.scratch("work", m)
 	t.run(func() { verifC07lImpl.Dgelq2(m, n, a, *lda, tau, work) })
 }
 
@@ -1017,8 +1054,8 @@ func VerifC07_Dgecon() {
 	anorm := verifC07lAnorm()
 	t.need(anorm >= 0)
 	a := t.mat("a", n, n, lda)
-	work := t.vec("work", 4*n)
-	iwork := t.ints("iwork", n, false)
+	work := t.scratch("work", 4*n)
+	iwork := t.iscratch("iwork", n)
 	t.run(func() { verifC07lImpl.Dgecon(nm, n, a, *lda, anorm, work, iwork) })
 }
 
@@ -1031,8 +1068,8 @@ func VerifC07_Dpocon() {
 	anorm := verifC07lAnorm()
 	t.gapIf(anorm < 0)
 	a := t.mat("a", n, n, lda)
-	work := t.vec("work", 3*n)
-	iwork := t.ints("iwork", n, false)
+	work := t.scratch("work", 3*n)
+	iwork := t.iscratch("iwork", n)
 	t.run(func() { verifC07lImpl.Dpocon(ul, n, a, *lda, anorm, work, iwork) })
 }
 
@@ -1044,7 +1081,277 @@ func VerifC07_Dtrcon() {
 	n := t.dim("n")
 	lda := t.ld("lda", verifC07lMax(1, n))
 	a := t.mat("a", n, n, lda)
-	work := t.vec("work", 3*n)
-	iwork := t.ints("iwork", n, false)
+	work := t.scratch("work", 3*n)
+	iwork := t.iscratch("iwork", n)
 	t.run(func() { verifC07lImpl.Dtrcon(nm, ul, d, n, a, *lda, work, iwork) })
+}
+
+// ---------------- eigenvalue / singular value drivers and their building blocks ----------------
+// (concrete well conditioned data; the numeric part runs concretely)
+
+// Dsyev: jobz is EVNone or EVCompute; w at least n; lwork >= 3*n-1 (max(1,.)) or -1.
+func VerifC07_Dsyev() {
+	t := verifC07lBegin("Dsyev")
+	jobz := lapack.EVJob(t.flag("jobz", byte(lapack.EVNone), byte(lapack.EVCompute)))
+	ul := t.uplo("uplo")
+	n := t.dim("n")
+	lda := t.ld("lda", verifC07lMax(1, n))
+	a := t.mat("a", n, n, lda)
+	w := t.vec("w", n)
+	work, lwork := t.work(3*n-1, 3*n-1)
+	t.run(func() { verifC07lImpl.Dsyev(jobz, ul, n, a, *lda, w, work, *lwork) })
+}
+
+// Dsytrd: "d must have length n, and e and tau must have length n-1"; lwork >= 1 or -1.
+func VerifC07_Dsytrd() {
+	t := verifC07lBegin("Dsytrd")
+	ul := t.uplo("uplo")
+	n := t.dim("n")
+	lda := t.ld("lda", verifC07lMax(1, n))
+	a := t.mat("a", n, n, lda)
+	d := t.vecExact("d", n, false)
+	e := t.vecExact("e", n-1, false)
+	tau := t.vecExact("tau", n-1, false)
+	work, lwork := t.work(1, 1)
+	t.run(func() { verifC07lImpl.Dsytrd(ul, n, a, *lda, d, e, tau, work, *lwork) })
+}
+
+// Dgebrd: d, tauQ, tauP at least min(m,n), e min(m,n)-1; lwork >= max(1,m,n) or -1.
+func VerifC07_Dgebrd() {
+	t := verifC07lBegin("Dgebrd")
+	m, n := t.dim("m"), t.dim("n")
+	lda := t.ld("lda", verifC07lMax(1, n))
+	a := t.mat("a", m, n, lda)
+	mn := verifC07lMin(m, n)
+	d := t.vec("d", mn)
+	e := t.vec("e", mn-1)
+	tauQ := t.vec("tauQ", mn)
+	tauP := t.vec("tauP", mn)
+	work, lwork := t.work(verifC07lMax(m, n), verifC07lMax(m, n))
+	t.run(func() { verifC07lImpl.Dgebrd(m, n, a, *lda, d, e, tauQ, tauP, work, *lwork) })
+}
+
+// Dgesvd: jobU, jobVT in {SVDAll, SVDStore, SVDNone} (SVDOverwrite is documented but "not coded":
+// excluded); s at least min(m,n); u is m x m (All) or m x min(m,n) (Store), vt is n x n (All) or
+// min(m,n) x n (Store); ldu, ldvt >= 1; lwork >= max(1, 5*min(m,n), 3*min(m,n)+max(m,n)) or -1.
+func VerifC07_Dgesvd() {
+	t := verifC07lBegin("Dgesvd")
+	ju, jv := verifByte("jobU"), verifByte("jobVT")
+	verifAssume(verifAnd(ju != byte(lapack.SVDOverwrite), jv != byte(lapack.SVDOverwrite)))
+	legal := func(b byte) bool {
+		return verifOr(b == byte(lapack.SVDAll), verifOr(b == byte(lapack.SVDStore), b == byte(lapack.SVDNone)))
+	}
+	t.need(verifAnd(legal(ju), legal(jv)))
+	jobU, jobVT := lapack.SVDJob(ju), lapack.SVDJob(jv)
+	m, n := t.dim("m"), t.dim("n")
+	mn, mx := verifC07lMin(m, n), verifC07lMax(m, n)
+	ucols := verifIteInt(jobU == lapack.SVDAll, m, verifIteInt(jobU == lapack.SVDStore, mn, 0))
+	urows := verifIteInt(ucols > 0, m, 0)
+	vrows := verifIteInt(jobVT == lapack.SVDAll, n, verifIteInt(jobVT == lapack.SVDStore, mn, 0))
+	vcols := verifIteInt(vrows > 0, n, 0)
+	lda := t.ld("lda", verifC07lMax(1, n))
+	ldu := t.ld("ldu", verifC07lMax(1, ucols))
+	ldvt := t.ld("ldvt", verifC07lMax(1, vcols))
+	a := t.mat("a", m, n, lda)
+	s := t.vec("s", mn)
+	u := t.mat("u", urows, ucols, ldu)
+	vt := t.mat("vt", vrows, vcols, ldvt)
+	minw := verifC07lMax(5*mn, 3*mn+mx)
+	work, lwork := t.work(minw, minw)
+	t.run(func() { verifC07lImpl.Dgesvd(jobU, jobVT, m, n, a, *lda, s, u, *ldu, vt, *ldvt, work, *lwork) })
+}
+
+// Dgeev: jobvl, jobvr legal; "wr and wi must have length n, and Dgeev will panic otherwise";
+// vl, vr are n x n when computed; ldvl, ldvr >= 1; lwork >= max(1,4*n) with vectors, max(1,3*n) without, or -1.
+func VerifC07_Dgeev() {
+	t := verifC07lBegin("Dgeev")
+	jl := lapack.LeftEVJob(t.flag("jobvl", byte(lapack.LeftEVCompute), byte(lapack.LeftEVNone)))
+	jr := lapack.RightEVJob(t.flag("jobvr", byte(lapack.RightEVCompute), byte(lapack.RightEVNone)))
+	n := t.dim("n")
+	wl, wr := jl == lapack.LeftEVCompute, jr == lapack.RightEVCompute
+	lda := t.ld("lda", verifC07lMax(1, n))
+	ldvl := t.ld("ldvl", verifC07lMax(1, verifIteInt(wl, n, 0)))
+	ldvr := t.ld("ldvr", verifC07lMax(1, verifIteInt(wr, n, 0)))
+	a := t.mat("a", n, n, lda)
+	wre := t.vecExact("wr", n, true)
+	wim := t.vecExact("wi", n, true)
+	vl := t.mat("vl", verifIteInt(wl, n, 0), verifIteInt(wl, n, 0), ldvl)
+	vr := t.mat("vr", verifIteInt(wr, n, 0), verifIteInt(wr, n, 0), ldvr)
+	minw := verifIteInt(verifOr(wl, wr), 4*n, 3*n)
+	work, lwork := t.work(minw, 4*n)
+	t.run(func() { verifC07lImpl.Dgeev(jl, jr, n, a, *lda, wre, wim, vl, *ldvl, vr, *ldvr, work, *lwork) })
+}
+
+// verifC07lIloIhi: "0 <= ilo <= ihi < n if n > 0, and ilo == 0 and ihi == -1 if n == 0".
+func verifC07lIloIhi(t *verifC07lT, n int) (ilo, ihi int) {
+	hi := verifParam("lmaxdim", 2)
+	ilo, ihi = t.par("ilo", -1, hi), t.par("ihi", -1, hi)
+	t.need(verifOr(verifAnd(n > 0, verifAnd(0 <= ilo, verifAnd(ilo <= ihi, ihi < n))),
+		verifAnd(n == 0, verifAnd(ilo == 0, ihi == -1))))
+	return ilo, ihi
+}
+
+// Dgehrd: "tau must have length equal to n-1 if n > 0, otherwise Dgehrd will panic"; lwork >= max(1,n) or -1.
+func VerifC07_Dgehrd() {
+	t := verifC07lBegin("Dgehrd")
+	n := t.dim("n")
+	ilo, ihi := verifC07lIloIhi(t, n)
+	lda := t.ld("lda", verifC07lMax(1, n))
+	a := t.mat("a", n, n, lda)
+	tau := t.vecExact("tau", verifC07lMax(0, n-1), true)
+	work, lwork := t.work(n, n)
+	t.run(func() { verifC07lImpl.Dgehrd(n, ilo, ihi, a, *lda, tau, work, *lwork) })
+}
+
+// Dhseqr: job, compz legal; ilo, ihi as for Dgehrd; ldh >= max(1,n); ldz >= 1 and >= n when Z is
+// wanted; "wr and wi must have length n"; lwork >= max(1,n) or -1. H is laid out upper Hessenberg
+// with the block ilo..ihi isolated (a non-isolated block is a documented panic on VALUES).
+func VerifC07_Dhseqr() {
+	t := verifC07lBegin("Dhseqr")
+	job := lapack.SchurJob(t.flag("job", byte(lapack.EigenvaluesOnly), byte(lapack.EigenvaluesAndSchur)))
+	cz := lapack.SchurComp(t.flag("compz", byte(lapack.SchurNone), byte(lapack.SchurHess), byte(lapack.SchurOrig)))
+	n := t.dim("n")
+	ilo, ihi := verifC07lIloIhi(t, n)
+	wantz := cz != lapack.SchurNone
+	ldh := t.ld("ldh", verifC07lMax(1, n))
+	ldz := t.ld("ldz", verifC07lMax(1, verifIteInt(wantz, n, 0)))
+	hb, h := t.slice("h")
+	t.store = verifAnd(t.store, verifC07lMatOK(n, n, *ldh, len(h)))
+	t.short = verifOr(t.short, verifNot(verifC07lMatOK(n, n, *ldh, len(h))))
+	wr := t.vecExact("wr", n, false)
+	wi := t.vecExact("wi", n, false)
+	z := t.mat("z", verifIteInt(wantz, n, 0), verifIteInt(wantz, n, 0), ldz)
+	work, lwork := t.work(n, n)
+	t.fill = func() {
+		ld := *ldh
+		for i := 0; i < n; i++ {
+			for j := 0; j < n; j++ {
+				k := i*ld + j
+				if k >= len(hb) {
+					continue
+				}
+				switch {
+				case i == j:
+					hb[k] = 4 + float64(i)
+				case i < j:
+					hb[k] = 0.5 / float64(1+i+j)
+				case i == j+1 && ilo <= j && i <= ihi:
+					hb[k] = 0.25
+				default:
+					hb[k] = 0
+				}
+			}
+		}
+	}
+	t.run(func() { verifC07lImpl.Dhseqr(job, cz, n, ilo, ihi, h, *ldh, wr, wi, z, *ldz, work, *lwork) })
+}
+
+// Dbdsqr: uplo legal; n, ncvt, nru, ncc >= 0; ldvt >= max(1,ncvt), ldu >= max(1,n), ldc >= max(1,ncc);
+// d at least n, e at least n-1; vt is n x ncvt, u is nru x n, c is n x ncc;
+// "work ... must have length at least 4*(n-1)".
+// VerifC07_Dbdsqr is an OPEN VIOLATION (not in the check spec): with ncvt == nru == ncc == 0 the
+// routine needs 4*n work cells. VerifC07_DbdsqrWork4n gives 4*n cells and is in the spec.
+func verifC07lBdsqr(work4n bool) {
+	t := verifC07lBegin("Dbdsqr")
+	ul := t.uplo("uplo")
+	n := t.dim("n")
+	hi := verifParam("lmaxrhs", 1)
+	ncvt, nru, ncc := t.par("ncvt", -1, hi), t.par("nru", -1, hi), t.par("ncc", -1, hi)
+	t.need(verifAnd(ncvt >= 0, verifAnd(nru >= 0, ncc >= 0)))
+	ldvt := t.ld("ldvt", verifC07lMax(1, ncvt))
+	ldu := t.ld("ldu", verifC07lMax(1, n))
+	ldc := t.ld("ldc", verifC07lMax(1, ncc))
+	d := t.vec("d", n)
+	e := t.vec("e", n-1)
+	vt := t.mat("vt", n, ncvt, ldvt)
+	u := t.mat("u", nru, n, ldu)
+	c := t.mat("c", n, ncc, ldc)
+	var work []float64
+	if work4n {
+		_, work = t.scratchSlice("work")
+		t.store = verifAnd(t.store, len(work) >= 4*n)
+		t.short = verifOr(t.short, len(work) < 4*(n-1))
+	} else {
+		work = t.scratch("work", 4*(n-1))
+	}
+	t.run(func() { verifC07lImpl.Dbdsqr(ul, n, ncvt, nru, ncc, d, e, vt, *ldvt, u, *ldu, c, *ldc, work) })
+}
+
+func VerifC07_Dbdsqr()       { verifC07lBdsqr(false) }
+func VerifC07_DbdsqrWork4n() { verifC07lBdsqr(true) }
+
+// Dsteqr: compz legal; ldz >= 1 and >= n when eigenvectors are computed; "d must have length n",
+// "e must have length n-1"; z is n x n and work holds max(1,2*n-2) cells when eigenvectors are computed.
+func VerifC07_Dsteqr() {
+	t := verifC07lBegin("Dsteqr")
+	cz := lapack.EVComp(t.flag("compz", byte(lapack.EVCompNone), byte(lapack.EVTridiag), byte(lapack.EVOrig)))
+	n := t.dim("n")
+	wantz := cz != lapack.EVCompNone
+	ldz := t.ld("ldz", verifC07lMax(1, verifIteInt(wantz, n, 0)))
+	d := t.vecExact("d", n, false)
+	e := t.vecExact("e", n-1, false)
+	z := t.mat("z", verifIteInt(wantz, n, 0), verifIteInt(wantz, n, 0), ldz)
+	work := t.scratch("work", verifIteInt(wantz, verifC07lMax(1, 2*n-2), 0))
+	t.run(func() { verifC07lImpl.Dsteqr(cz, n, d, e, z, *ldz, work) })
+}
+
+func VerifC07_Dsterf() {
+	t := verifC07lBegin("Dsterf")
+	n := t.dim("n")
+	d := t.vec("d", n)
+	e := t.vec("e", n-1)
+	t.run(func() { verifC07lImpl.Dsterf(n, d, e) })
+}
+
+// Dlasrt: "For other values of s Dlasrt will panic"; d holds n numbers. No quick return is documented.
+func VerifC07_Dlasrt() {
+	t := verifC07lBegin("Dlasrt")
+	s := lapack.Sort(t.flag("s", byte(lapack.SortIncreasing), byte(lapack.SortDecreasing)))
+	n := verifChoose("n", -1, verifParam("lmaxdim", 2)+1)
+	t.need(n >= 0)
+	_, d := t.slice("d")
+	t.store = verifAnd(t.store, len(d) >= n)
+	t.always = verifOr(t.always, len(d) < n)
+	t.run(func() { verifC07lImpl.Dlasrt(s, n, d) })
+}
+
+// Dlasr: side, pivot, direct legal; "s and c have length m - 1 if side == blas.Left, and n - 1 if side == blas.Right".
+func VerifC07_Dlasr() {
+	t := verifC07lBegin("Dlasr")
+	sd := t.side("side")
+	pv := lapack.Pivot(t.flag("pivot", byte(lapack.Variable), byte(lapack.Top), byte(lapack.Bottom)))
+	dr := lapack.Direct(t.flag("direct", byte(lapack.Forward), byte(lapack.Backward)))
+	m, n := t.dim("m"), t.dim("n")
+	lda := t.ld("lda", verifC07lMax(1, n))
+	nr := verifIteInt(sd == blas.Left, m-1, n-1)
+	c := t.vec("c", nr)
+	s := t.vec("s", nr)
+	a := t.mat("a", m, n, lda)
+	t.run(func() { verifC07lImpl.Dlasr(sd, pv, dr, m, n, c, s, a, *lda) })
+}
+
+// Dgebal: job legal; "scale must have length equal to n, otherwise Dgebal will panic".
+func VerifC07_Dgebal() {
+	t := verifC07lBegin("Dgebal")
+	job := lapack.BalanceJob(t.flag("job", byte(lapack.BalanceNone), byte(lapack.Permute), byte(lapack.Scale), byte(lapack.PermuteScale)))
+	n := t.dim("n")
+	lda := t.ld("lda", verifC07lMax(1, n))
+	a := t.mat("a", n, n, lda)
+	scale := t.vecExact("scale", n, true)
+	t.run(func() { verifC07lImpl.Dgebal(job, n, a, *lda, scale) })
+}
+
+// Dgebak: job, side (EVLeft, EVRight) legal; ilo, ihi as returned by Dgebal; v is n x m; scale holds n cells
+// (entries outside ilo..ihi are row indices: the junk 0.3.. denotes row 0).
+func VerifC07_Dgebak() {
+	t := verifC07lBegin("Dgebak")
+	job := lapack.BalanceJob(t.flag("job", byte(lapack.BalanceNone), byte(lapack.Permute), byte(lapack.Scale), byte(lapack.PermuteScale)))
+	sd := lapack.EVSide(t.flag("side", byte(lapack.EVLeft), byte(lapack.EVRight)))
+	n := t.dim("n")
+	ilo, ihi := verifC07lIloIhi(t, n)
+	m := t.dim("m")
+	ldv := t.ld("ldv", verifC07lMax(1, m))
+	scale := t.vec("scale", n)
+	v := t.mat("v", n, m, ldv)
+	t.run(func() { verifC07lImpl.Dgebak(job, sd, n, ilo, ihi, scale, m, v, *ldv) })
 }
